@@ -28,6 +28,7 @@ const (
 	avStr /* S: class; "" is the empty string */
 	avInt
 	avLen /* S: class of the string whose length this is */
+	avPtr /* S: the abstract location pointed to */
 )
 
 // AV is an abstract value.
@@ -69,12 +70,31 @@ func (a AV) String() string {
 		return fmt.Sprintf("%d", a.N)
 	case avLen:
 		return "len(" + a.S + ")"
+	case avPtr:
+		return "&" + a.S
 	}
 	return "?"
 }
 
 // avEq compares two abstract values; ok is false when the result is unknown.
 func avEq(a, b AV) (eq, ok bool) {
+	/* The length of a string class against a number: classes other than ""
+	stand for non-empty strings. */
+	if avLen == a.K && avInt == b.K {
+		a, b = b, a
+	}
+	if avInt == a.K && avLen == b.K {
+		if 0 == a.N {
+			return false, true
+		}
+		return false, false
+	}
+	if avPtr == a.K && avNil == b.K {
+		return false, true /* a pointer to a tracked location is not nil */
+	}
+	if avNil == a.K && avPtr == b.K {
+		return false, true
+	}
 	if a.K != b.K || avUnknown == a.K {
 		return false, false
 	}
@@ -93,6 +113,8 @@ func avEq(a, b AV) (eq, ok bool) {
 		return a.S == b.S, true
 	case avInt:
 		return a.N == b.N, true
+	case avPtr:
+		return a.S == b.S, true
 	case avLen:
 		/* Equal strings have equal lengths; different strings may or may
 		not. */
@@ -109,6 +131,9 @@ type Machine struct {
 	Fn *ssa.Function
 	// LocOf names the abstract location an address denotes ("" = untracked).
 	LocOf func(addr ssa.Value) string
+	// LocOfRun, when set, is tried first and may use the path's state (an
+	// index or a pointer known on this path).
+	LocOfRun func(r *Run, addr ssa.Value) string
 	// Param gives the abstract value of a parameter or free variable.
 	Param func(v ssa.Value) AV
 	// Call models a call's result(s); idx is -1 for a single result, else
@@ -525,6 +550,20 @@ func literalLen(v ssa.Value) (int64, bool) {
 // locOf names the abstract location of an address: the machine's own naming
 // first, then elements of local arrays at a known index.
 func (r *Run) locOf(addr ssa.Value) string {
+	/* A pointer whose target is known on this path. */
+	if a, ok := r.Vals[addr]; ok && avPtr == a.K {
+		return a.S
+	}
+	if _, isP := addr.(*ssa.Parameter); isP && nil != r.M.Param {
+		if a := r.M.Param(addr); avPtr == a.K {
+			return a.S
+		}
+	}
+	if nil != r.M.LocOfRun {
+		if l := r.M.LocOfRun(r, addr); "" != l {
+			return l
+		}
+	}
 	if nil != r.M.LocOf {
 		if l := r.M.LocOf(addr); "" != l {
 			return l
